@@ -374,6 +374,30 @@ pub fn load_known() -> Vec<Known> {
     out
 }
 
+/// Key patterns of the open findings registered for `prop`.
+pub fn open_keys(prop: &str) -> Vec<String> {
+    // (read once per process: fuzz targets ask on every iteration)
+    static ALL: std::sync::OnceLock<Vec<Known>> = std::sync::OnceLock::new();
+    ALL.get_or_init(load_known).iter().filter(|k| k.property == prop && k.status == "open").map(|k| k.key.clone()).collect()
+}
+
+/// A violation found by a coverage-guided fuzz target: saved as an ordinary tape replay,
+/// announced in the usual form, then the process panics so that libFuzzer stops and keeps
+/// its own artifact as well.
+pub fn fuzz_violation(prop: &str, part: &str, tape: &[u64], fail: &Fail) -> ! {
+    let mut d = crate::Digest::new();
+    d.str(&fail.key);
+    for v in tape {
+        d.u64(*v);
+    }
+    let path = format!("{}/replays/new/{}-fuzz-{:016x}.tape", out_root(), prop, d.finish());
+    let _ = std::fs::create_dir_all(format!("{}/replays/new", out_root()));
+    write_replay(&path, prop, part, tape, fail, &[]);
+    println!("failure key={} part={} : {}", fail.key, part, fail.msg);
+    println!("VIOLATION property={} replay={}", prop, path);
+    panic!("VIOLATION property={} key={}", prop, fail.key);
+}
+
 // ---------------------------------------------------------------- replay files
 
 pub struct ReplayFile {
